@@ -157,6 +157,7 @@ type workerSummary struct {
 	Samples      []sample            `json:"samples"`
 	WallS        float64             `json:"wall_s"`
 	BudgetHit    bool                `json:"budget_hit"`
+	Lattice      []int               `json:"lattice_points"` // distinct enumerated lattice points visited
 	Level        string              `json:"level"`
 	Rule         string              `json:"rule"`
 	Assumptions  []string            `json:"assumptions"`
@@ -238,6 +239,7 @@ func TestWorker(t *testing.T) {
 	prints := map[uint64]bool{}
 	allPrints := map[uint64]bool{}
 	seenSig := map[string]bool{}
+	latticeSeen := map[int]bool{}
 
 	var hashLog *os.File
 	if hl := os.Getenv("VERIF_HASHLOG"); hl != "" {
@@ -263,6 +265,9 @@ func TestWorker(t *testing.T) {
 		addCounts(sum.DontCare, res.DontCare)
 		addCounts(sum.Extra, res.Extra)
 		sum.SimMillis += res.SimMillis
+		for _, lp := range res.Lattice {
+			latticeSeen[lp] = true
+		}
 		if res.Excluded != "" {
 			sum.Excluded[res.Excluded]++
 		}
@@ -327,6 +332,9 @@ func TestWorker(t *testing.T) {
 		sum.Fingerprints = append(sum.Fingerprints, fp)
 	}
 	sum.AllPrints = len(allPrints)
+	for lp := range latticeSeen {
+		sum.Lattice = append(sum.Lattice, lp)
+	}
 	sum.WallS = time.Since(start).Seconds()
 	b, _ := json.Marshal(sum)
 	if out := os.Getenv("VERIF_OUT"); out != "" {
